@@ -75,7 +75,7 @@ func unwrapIface(v ssa.Value) ssa.Value {
 
 // grantGuards: the registry insertion is reached only after every grant condition.
 func grantGuards(p *Prog, ls *Lockset, r *Report, rule string, m mgrSpec) {
-	key := m.Type + "." + m.Field
+	key := F(m.Type + "." + m.Field)
 	ff := ls.Facts(key)
 	n := 0
 	for _, a := range ff.insAcc {
@@ -338,7 +338,7 @@ func removeMissRule(p *Prog, ls *Lockset, r *Report, rule string, m mgrSpec) {
 		r.Undecided(rule, "anchor:"+base, "", "method not found")
 		return
 	}
-	key := m.Type + "." + m.Field
+	key := F(m.Type + "." + m.Field)
 	n := 0
 	for _, a := range ls.accessesIn(key, fn) {
 		st, ok := a.Ins.(*ssa.Store)
@@ -407,7 +407,7 @@ func idRule(p *Prog, r *Report, rule string, m mgrSpec) {
 				continue
 			}
 			found = true
-			ok = fromAtomicAdd(p, st.Val, m.NumField, 0)
+			ok = fromAtomicAdd(p, st.Val, FN(m.Type+"."+m.NumField), 0)
 		}
 	}
 	if !found {
